@@ -55,7 +55,7 @@ PROOFS = [
     Proof('serializer/buffer', 'ser.c', 'h_ser_buffer', kind='L', min_obligations=3),
     Proof('checked_message', 'ser.c', 'h_checksum', kind='L', min_obligations=1),
 ]
-NATIVES = [Native('native', 'native.cpp', args_quick=[50000], args_thorough=[3000000], timeout=1800, link_photon=True)]
+NATIVES = [Native('native', 'native.cpp', args_quick=[50000], args_thorough=[1000000], timeout=3000, link_photon=True)]
 REPLAY = 'native'
 TRUSTED = ['cbmc 6.11.0', 'lowering rules of specs/C12/spec.py']
 NOT_DECIDED = ['the compile-time traversal over message shapes (reduce/process_fields/FilterAlignedFields, nested messages, sorted_map iteration)',
